@@ -33,6 +33,17 @@ CLAIMED = {
                  "gamma_mu_shape == Gamma(a, scale=mu/a) as identities of canonical forms. Does not decide scipy's numerics.",
         "note": _TB + "; spec table sa/specs/utilr.py",
     },
+    "C02": {
+        "technique": "static analysis: taint of the integrator buffer .y with copy sanitisers and one level of callee "
+                     "summaries; CFG path counting of appends per loop iteration; slice/argument agreement of the grid "
+                     "hand-over; func/jac pairing and parameter-name agreement at call sites; literal table agreement of "
+                     "integrator names; shape inference of the jacobian evaluator",
+        "level": "Decides the repo-owned half of 'one row per requested time, in order, origin first': no aliasing of "
+                 "the integrator buffer into the rows, exactly one append per loop iteration on every path, t0 prepended, "
+                 "t[0]/t[1:] hand-over, correct (func, jac) pairs with the orientation scipy expects, integrator table. "
+                 "Does not decide that a row equals the true solution to tolerance (scipy's integrators).",
+        "note": _TB,
+    },
 }
 
 NOT_APPLICABLE = {}
